@@ -287,9 +287,52 @@ def hrunFrom (cfg : Cfg) (n : Nat) : SState → HB → List Nat → SState × HB
 
 def hrun (cfg : Cfg) (n : Nat) (sched : List Nat) : SState × HB := hrunFrom cfg n SState.init HB.init sched
 
+/-! ### the event trace of a run
+
+What the run *did*, independent of the ghost above: one event per effective step (thread, the
+access it performed = its program counter before the step).  A stutter step — thread finished,
+not existing, or waiting for a held mutex — produces no event; a `lock` event is therefore always
+a successful acquisition.  The driver prints exactly this trace (`Drivers/Concurrency.lean`,
+`sEvent`), which is what the forced-schedule correspondence compares with the real code.  The
+event-level happens-before relation `HBefore` is defined over this trace in
+Lemmas/ConcurrencyEvents.lean, and the ghost `HB` is proved sound and complete against it. -/
+
+structure Ev where
+  thread : Nat
+  kind : SPc
+  deriving DecidableEq, Repr
+
+/-- the event of letting thread `t` step in state `s`; `none` = stutter -/
+def sevent (n : Nat) (s : SState) (t : Nat) : Option Ev :=
+  if t < n then
+    if s.pc t = .done then none
+    else if s.blocked t = true then none
+    else some ⟨t, s.pc t⟩
+  else none
+
+def stepTrace (n : Nat) (s : SState) (tr : List Ev) (t : Nat) : List Ev :=
+  match sevent n s t with
+  | some e => tr ++ [e]
+  | none => tr
+
+/-- state, ghost and event trace along a schedule -/
+def trunFrom (cfg : Cfg) (n : Nat) : SState → HB → List Ev → List Nat → SState × HB × List Ev
+  | s, h, tr, [] => (s, h, tr)
+  | s, h, tr, t :: rest => trunFrom cfg n (sstep cfg n s t) (hbStep cfg n s h t) (stepTrace n s tr t) rest
+
+/-- the event trace of a schedule from the initial state -/
+def strace (cfg : Cfg) (n : Nat) (sched : List Nat) : List Ev :=
+  (trunFrom cfg n SState.init HB.init [] sched).2.2
+
 /-- ManagedThread: for every sample (same order as `MState.samples`) whether the end of the user
-function happens-before the observer's next event: the observer's acquire load read the value
-the child's release store after the function wrote, or the observer knows of the `join()`. -/
+function happens-before the observer's next event **through the flag**: the observer's acquire
+load read the value the child's release store after the function wrote (`cpc = done`: that store
+has been performed, and it is the last store into the flag).  `join()` is NOT an edge here
+(audit 2, finding 6): the completion of the thread synchronises with the return of `join()` in
+the *joining* thread only, and an observer of the model is an arbitrary thread — a sample taken
+after the join by a thread that was not told about it is ordered by nothing but the flag.  (Until
+2026-09-30 the mark was `joined || …`, which made every post-join sample published whatever the
+orders: `C20_relaxed_flag_unpublished_after_join` is the witness that this was too generous.) -/
 def mhbStep (cfg : Cfg) (nobs : Nat) (s : MState) (l : List (Sample × Bool)) (t : Nat) : List (Sample × Bool) :=
   match t with
   | 0 => l
@@ -297,7 +340,7 @@ def mhbStep (cfg : Cfg) (nobs : Nat) (s : MState) (l : List (Sample × Bool)) (t
   | t + 2 =>
     if t < nobs ∧ s.isLive = true then
       l ++ [(⟨t + 2, s.win, s.ppc == .joined, s.flag⟩,
-             (s.ppc == .joined) || (cfg.flagAtomic && cfg.flagOrders && s.cpc == .done && s.flag == some false))]
+             cfg.flagAtomic && cfg.flagOrders && s.cpc == .done && s.flag == some false)]
     else l
 
 def mhrunFrom (cfg : Cfg) (nobs : Nat) : MState → List (Sample × Bool) → List Nat → MState × List (Sample × Bool)
